@@ -837,7 +837,7 @@ func (nl *NodeList) NodeSiblings(id string) *NodeList {
 	nodelist := &NodeList{}
 
 	if id == "" {
-		return nil
+		return nodelist
 	}
 
 	// Check that the node actually exists
